@@ -902,6 +902,18 @@ def _loops_to_comps(node: ast.FunctionDef) -> None:
             i += len(new)
 
 
+def _if_to_ifexp(node: ast.FunctionDef) -> None:
+    """if c: x = A  else: x = B   ->   x = A if c else B      (one plain name, one statement per arm)"""
+    for block in _blocks(node):
+        for i, st in enumerate(block):
+            if isinstance(st, ast.If) and len(st.body) == 1 and len(st.orelse) == 1 and \
+                    all(isinstance(x, ast.Assign) and len(x.targets) == 1 and isinstance(x.targets[0], ast.Name) for x in (st.body[0], st.orelse[0])) and \
+                    st.body[0].targets[0].id == st.orelse[0].targets[0].id:
+                v = ast.IfExp(test=st.test, body=st.body[0].value, orelse=st.orelse[0].value)
+                new = ast.Assign(targets=[ast.Name(id=st.body[0].targets[0].id, ctx=ast.Store())], value=ast.copy_location(v, st))
+                block[i] = ast.fix_missing_locations(ast.copy_location(new, st))
+
+
 def loopify_return_comp(node: ast.FunctionDef, acc: str = "__acc") -> ast.FunctionDef:
     """`return [E for a in A (if c) for b in B ...]`  ->  `acc = []; for a in A: (if c:) acc.extend([E for b in B ...]); return acc`
     (a copy; the function is returned unchanged when its body is not a single returned list comprehension)"""
@@ -941,7 +953,7 @@ def loopify_return_comp(node: ast.FunctionDef, acc: str = "__acc") -> ast.Functi
     return new
 
 
-def normalise(M, fn, subst: bool = False, guards: bool = False, keep=(), comps: bool = False) -> ast.FunctionDef:
+def normalise(M, fn, subst: bool = False, guards: bool = False, keep=(), comps: bool = False, ifexp: bool = False) -> ast.FunctionDef:
     """a normalised deep copy of fn.node (see module docstring)"""
     node = copy.deepcopy(fn.node)
     for _ in range(4):
@@ -956,6 +968,8 @@ def normalise(M, fn, subst: bool = False, guards: bool = False, keep=(), comps: 
             break
     if guards:
         node.body = _guards_to_else(node.body)
+    if ifexp:
+        _if_to_ifexp(node)
     if comps:
         _loops_to_comps(node)
     if subst:
